@@ -26,6 +26,10 @@ pub trait Sut: Clone + Send + Sync + 'static {
     fn entries(&self) -> Vec<Obs>;
     fn apply(&mut self, model: &mut Model, w: &Walk, op: Op, tok: u32, cx: &Cx) -> Vec<Viol>;
     fn enumerate_ops(uni: &Universe, model: &Model, alpha: Alphabet, rep_mode: u8, retain_all: bool) -> Vec<Op>;
+    /// run the mutable traversals on a (possibly corrupt) structure and report aliasing references
+    fn alias_probe(&self) -> Option<Viol> {
+        None
+    }
 }
 
 impl<P: PType> Sut for PrefixMap<P, u32> {
@@ -55,6 +59,40 @@ impl<P: PType> Sut for PrefixMap<P, u32> {
     }
     fn enumerate_ops(uni: &Universe, model: &Model, alpha: Alphabet, rep_mode: u8, retain_all: bool) -> Vec<Op> {
         ops::enumerate_ops(uni, model, alpha, rep_mode, retain_all)
+    }
+    fn alias_probe(&self) -> Option<Viol> {
+        let mut c = self.clone();
+        let lim = cap(PrefixMap::len(&c)) + 64;
+        let mut addrs: Vec<usize> = c.iter_mut().take(lim).map(|(_, v)| v as *mut u32 as usize).collect();
+        let n = addrs.len();
+        addrs.sort();
+        addrs.dedup();
+        if addrs.len() != n {
+            return Some(Viol::new("C14", "PrefixMap::iter_mut", "aliasing-mutable-references", format!("{n} mutable references handed out, only {} distinct addresses", addrs.len())));
+        }
+        let mut views = vec![];
+        fn split_all<'a, P: PType>(v: prefix_trie::TrieViewMut<'a, P, u32>, d: usize, acc: &mut Vec<prefix_trie::TrieViewMut<'a, P, u32>>) {
+            if d == 0 || !(v.has_left() || v.has_right()) {
+                acc.push(v);
+                return;
+            }
+            let (l, r) = v.split();
+            if let Some(l) = l {
+                split_all(l, d - 1, acc);
+            }
+            if let Some(r) = r {
+                split_all(r, d - 1, acc);
+            }
+        }
+        split_all(c.view_mut(), 6, &mut views);
+        let mut addrs: Vec<usize> = views.into_iter().flat_map(|v| v.into_iter().take(lim).map(|(_, x)| x as *mut u32 as usize).collect::<Vec<_>>()).collect();
+        let n = addrs.len();
+        addrs.sort();
+        addrs.dedup();
+        if addrs.len() != n {
+            return Some(Viol::new("C14", "TrieViewMut::split + into_iter", "aliasing-mutable-references", format!("{n} mutable references handed out by disjoint views, only {} distinct addresses", addrs.len())));
+        }
+        None
     }
 }
 
@@ -209,6 +247,18 @@ impl<P: PType> Sut for PrefixSet<P> {
                 }
                 *self = seq.into_iter().collect();
             }
+            K::CloneFrom => {
+                let mut dst: PrefixSet<P> = PrefixSet::new();
+                let ks = &uni.keys;
+                for k in ks.iter().take(4) {
+                    dst.insert(mkp(*k));
+                }
+                for k in ks.iter().take(4).skip(1) {
+                    dst.remove(&mkp::<P>(*k));
+                }
+                dst.clone_from(self);
+                *self = dst;
+            }
             K::FromIterBig => {
                 let old = std::mem::take(self);
                 let n = PrefixSet::len(&old);
@@ -248,7 +298,7 @@ impl<P: PType> Sut for PrefixSet<P> {
         let mut v: Vec<Op> = all
             .into_iter()
             .filter(|o| match o.kind {
-                K::Insert | K::Remove | K::RemoveKeepTree | K::RemoveChildren | K::Clear | K::Retain | K::CloneSelf | K::Recollect | K::RecollectRev | K::FromIterDup | K::FromIterBig => true,
+                K::Insert | K::Remove | K::RemoveKeepTree | K::RemoveChildren | K::Clear | K::Retain | K::CloneSelf | K::Recollect | K::RecollectRev | K::FromIterDup | K::FromIterBig | K::CloneFrom => true,
                 K::ViewSet | K::ViewRemove => o.arg <= 1,
                 _ => false,
             })
